@@ -277,6 +277,8 @@ pub struct Owned {
     stash_rc: RcTerm,
     cmp_st: CmpTerm<SimpleTerm<'static>>,
     res: ResultTerm,
+    /// the same, with its lazily computed SPARQL value already cached (`value()` was called)
+    res_warm: ResultTerm,
     iri_string: Option<IriRef<String>>,
     iri_arc: Option<IriRef<Arc<str>>>,
     abs_iri: Option<Iri<String>>,
@@ -392,6 +394,8 @@ impl Owned {
         let stash_rc = RcStrStash::new().copy_term(&arc);
         let cmp_st: CmpTerm<SimpleTerm<'static>> = (&arc).into_term();
         let res: ResultTerm = arc.clone().into();
+        let res_warm: ResultTerm = arc.clone().into();
+        let _ = res_warm.value();
         let mut o = Owned {
             m: m.clone(),
             st,
@@ -401,6 +405,7 @@ impl Owned {
             stash_rc,
             cmp_st,
             res,
+            res_warm,
             iri_string: None,
             iri_arc: None,
             abs_iri: None,
@@ -523,6 +528,7 @@ impl Owned {
         v.visit("CmpTerm<&ArcTerm>", true, CmpTerm(&self.arc));
         v.visit("CmpTerm<RcTerm>", true, CmpTerm(self.rc.clone()));
         v.visit("ResultTerm", true, self.res.clone());
+        v.visit("ResultTerm(value cached)", true, self.res_warm.clone());
         with_gen(&self.m, &mut |g| v.visit("Trusted<GeneralizedTerm>(built)", true, Trusted(g)));
         if self.strict {
             with_rio(&self.m, &mut |t| v.visit("Trusted<RioTerm>(built)", true, Trusted(t)));
@@ -1612,6 +1618,7 @@ fn laws_on_concrete_types(ctx: &mut Ctx, o: &[Owned]) {
             chk("RcTerm", Ord::cmp(&a.rc, &b.rc), a.rc == b.rc, std_digest(&a.rc), std_digest(&b.rc));
             chk("CmpTerm<SimpleTerm>", Ord::cmp(&a.cmp_st, &b.cmp_st), a.cmp_st == b.cmp_st, std_digest(&a.cmp_st), std_digest(&b.cmp_st));
             chk("ResultTerm", Ord::cmp(&a.res, &b.res), a.res == b.res, std_digest(&a.res), std_digest(&b.res));
+            chk("ResultTerm(value cached)", Ord::cmp(&a.res_warm, &b.res_warm), a.res_warm == b.res_warm, std_digest(&a.res_warm), std_digest(&b.res_warm));
             if let (Some(x), Some(y)) = (&a.gl_arc, &b.gl_arc) {
                 chk("GenericLiteral<Arc<str>>", Ord::cmp(x, y), x == y, std_digest(x), std_digest(y));
             }
